@@ -13,6 +13,7 @@ The model is tied to the code on faulted graphs by the `xexpand` status correspo
 -/
 import SpecModel.Props.ExpandCore
 import SpecModel.Expand.Check
+import SpecModel.Expand.SideConditions
 
 namespace SpecModel.Props.C08
 open SpecModel.Expand SpecModel.Props
@@ -43,5 +44,11 @@ theorem run_continue_validated [DecidableEq L] {W : World K L} {n : Nat} {t' : T
 example : expand ExpandCore.Wx false 40 [] [] ExpandCore.tBad = .err 9 := rfl
 example : ∃ r, expand ExpandCore.Wx true 40 [] [] ExpandCore.tBad = .ok r :=
   continue_ok ExpandCore.finiteWorld_Wx [] [] ExpandCore.tBad (by decide)
+
+
+/-! ### Side condition on the shape of expander.go (regenerated facts, `decide`) -/
+
+/-- no recursive call of the expander drops an error: each is tested by `shouldStopOnError` or returned -/
+theorem side_errors_propagated : SpecModel.Expand.Side.errorsPropagated SpecModel.Gen.expandErrorSites = true := by decide
 
 end SpecModel.Props.C08
